@@ -360,9 +360,9 @@ func rule123(r *core.Run, ctx *oblig.Ctx) {
 	})
 	okWrap := false
 	if nh != nil {
-		if ph, ok := nh.Call.Args[0].(*ssa.Phi); ok && len(ph.Edges) == 2 {
+		if alts := altValues(nh.Call.Args[0], 0); len(alts) == 2 {
 			var a, b bool
-			for _, e := range ph.Edges {
+			for _, e := range alts {
 				s := r.P.SliceOf(e, core.SliceOpts{Depth: -1})
 				if s.HasValue(nc) {
 					a = true
@@ -376,8 +376,8 @@ func rule123(r *core.Run, ctx *oblig.Ctx) {
 	// nothing else may sit between the body and the backend: a length-limiting or
 	// buffering wrapper hides trailing bytes and framing errors from the size check
 	if nh != nil {
-		if ph, ok := nh.Call.Args[0].(*ssa.Phi); ok {
-			for _, e := range ph.Edges {
+		if _, ok := nh.Call.Args[0].(*ssa.Phi); ok {
+			for _, e := range altValues(nh.Call.Args[0], 0) {
 				v := e
 				for {
 					if mi, ok := v.(*ssa.MakeInterface); ok {
